@@ -38,6 +38,14 @@ struct Joiner {
 
 static ull span(ll lo, ll hi) { return hi > lo ? (ull)(hi - lo) : 0; }
 
+// a stateful callable passed to for_each as an lvalue and inspected afterwards: the caller's own object must have
+// been called (not a copy of it)
+struct Collect {
+  Joiner j;
+  explicit Collect(ull cap) : j(cap) {}
+  void operator()(const vec3i &c) { j.add(show(c)); }
+};
+
 // value pattern of a freshly created array: cell i holds (i*37+11) mod 101 - 50
 static int pattern(ull i) { return (int)((i * 37 + 11) % 101) - 50; }
 
@@ -131,17 +139,19 @@ int main()
         if (op == "fe" || op == "feb") {
           vec3i lo(I(w[1]), I(w[2]), I(w[3])), hi(I(w[4]), I(w[5]), I(w[6]));
           Joiner j((span(lo.x, hi.x) + 2) * (span(lo.y, hi.y) + 2) * (span(lo.z, hi.z) + 2));
+          Collect f(j.cap);
           try {
-            if (op == "fe") for_each(lo, hi, [&](const vec3i &c) { j.add(show(c)); });
-            else for_each(box3i(lo, hi), [&](const vec3i &c) { j.add(show(c)); });
+            if (op == "fe") { for_each(lo, hi, [&](const vec3i &c) { j.add(show(c)); }); for_each(lo, hi, f); }
+            else { for_each(box3i(lo, hi), [&](const vec3i &c) { j.add(show(c)); }); for_each(box3i(lo, hi), f); }
           } catch (const Overrun &) { return "overrun " + j.str(); }
-          return j.str();
+          return j.str() + (f.j.str() != j.str() ? " lvalue-functor-saw:" + f.j.str() : "");
         }
         if (op == "fes") {
           vec3i hi(I(w[1]), I(w[2]), I(w[3]));
           Joiner j((span(0, hi.x) + 2) * (span(0, hi.y) + 2) * (span(0, hi.z) + 2));
-          try { for_each(hi, [&](const vec3i &c) { j.add(show(c)); }); } catch (const Overrun &) { return "overrun " + j.str(); }
-          return j.str();
+          Collect f(j.cap);
+          try { for_each(hi, [&](const vec3i &c) { j.add(show(c)); }); for_each(hi, f); } catch (const Overrun &) { return "overrun " + j.str(); }
+          return j.str() + (f.j.str() != j.str() ? " lvalue-functor-saw:" + f.j.str() : "");
         }
         // ---- ActualArray3D
         if (op == "bigidx") {
